@@ -56,6 +56,13 @@ def mieru_to_reference(seed, thorough):
                         "sessions": sessions.keep_open([{"c": [["w", x] for x in sizes] + [["rn", sum(sizes)]],
                                                          "s": [["rn", sum(sizes)]] + [["w", x] for x in sizes]}])})
             k += 1
+    # user names of every length class up to the 64-byte limit: the documented hint hashes user || nonce[:16]
+    for tr in ("tcp", "udp"):
+        for n in (1, 47, 48, 49, 60, 63, 64):
+            out.append({"id": "m2r/%s-username-%d" % (tr, n), "transport": tr, "mtu": 1400, "cpat": pats[0], "spat": pats[0], "seed": seed + k,
+                        "limit": 900, "expect": "complete", "user": ("u" * n),
+                        "sessions": sessions.keep_open([{"c": [["w", 100], ["rn", 50]], "s": [["rn", 100], ["w", 50]]}])})
+            k += 1
     return out
 
 
@@ -77,7 +84,8 @@ def reference_to_mieru(ctx, n):
         tr = ["tcp", "udp"][k % 2]
         role = ["refclient", "refserver"][(k // 2) % 2]
         out.append({"id": "r2m/%d-%s-%s" % (k, role, tr), "transport": tr, "role": role, "mtu": rnd.choice([1280, 1400, 1500]),
-                    "noncehigh": tr == "tcp" and k % 5 == 0, "seed": ctx.seed * 1000 + k, "steps": h})
+                    "noncehigh": tr == "tcp" and k % 5 == 0, "piggyresp": role == "refserver" and tr == "tcp" and (k // 4) % 2 == 0,
+                    "seed": ctx.seed * 1000 + k, "steps": h})
     # the rotation values and modes the documentation allows, one programme each (reference client -> real server)
     rots = [0] + list(range(1, 16)) + [16 * x for x in range(1, 16)]
     for r in rots:
